@@ -185,6 +185,94 @@ fn stream_bytes(rep: &mut Report, ex: &mut Expat, rng: &mut Rng, n: usize) {
     rep.streams.push(st);
 }
 
+
+/// references, well-formed and not, in content that is copied to the output as written and in content that is
+/// processed: whatever succeeds must be accepted by the independent parser (a bare `&`, a reference without its
+/// semicolon, a signed or empty number, an entity no DOCTYPE declares are not well-formed XML).
+fn stream_references(rep: &mut Report, ex: &mut Expat, rng: &mut Rng, n: usize) {
+    let mut st = Stream::new(
+        "oracle/references",
+        "oracle",
+        "one or two reference-like pieces (the five predefined entities, decimal / hexadecimal character references with leading zeros, upper-case digits, astral and boundary code points; a bare &, a missing semicolon, &#+65; &#x+41; &#-1; &#x; &#; &# 65; &#X41; &#65 ; surrogates, 0xFFFE, 0x110000, a number too long for 32 bits, undeclared and DOCTYPE-declared entities, && &;) in character data or an attribute value of a real SVG document, of a namespaced <svg> embedded in an svgdx document, of a text-only element, of a shape's text content or text attribute and of a tail after an element; with and without a DOCTYPE that declares the entity used; a successful transform must be accepted by the independent parser; non-trivial = every case",
+    );
+    const GOOD: &[&str] = &["&amp;", "&lt;", "&gt;", "&apos;", "&quot;", "&#65;", "&#0065;", "&#x41;", "&#x0041;", "&#xe9;", "&#xE9;", "&#9;", "&#10;", "&#x20;", "&#xD7FF;", "&#xE000;", "&#xFFFD;", "&#x10000;", "&#x10FFFF;", "&#128512;", "&amp;amp;", "&amp;#2;"];
+    const BAD: &[&str] = &["&", "& ", "a & b", "&amp", "&lt", "&#65", "&#x41", "&#+65;", "&#x+41;", "&#-1;", "&#x;", "&#;", "&# 65;", "&#X41;", "&#65 ;", "&#xD800;", "&#xDFFF;", "&#xFFFE;", "&#xFFFF;", "&#x110000;", "&#0;", "&#2;", "&#11;", "&#4294967361;", "&#x100000041;", "&foo;", "&nbsp;", "&Amp;", "&&amp;", "&;", "&1a;", "&a b;", "&#65;&#", "&amp;&", "&#x4G;", "&#6 5;", "&#65;;&", "&-a;", "&.a;"];
+    for _ in 0..n {
+        let k = 1 + rng.below(2);
+        let mut piece = String::new();
+        let mut any_bad = false;
+        for j in 0..k {
+            if j > 0 { piece.push_str(*rng.pick(&["", " ", "x"])); }
+            if rng.below(5) < 2 { piece.push_str(*rng.pick(GOOD)); } else { piece.push_str(*rng.pick(BAD)); any_bad = true; }
+        }
+        // a DOCTYPE that declares `foo` and `nbsp` (so &foo; / &nbsp; alone are well-formed there); never a DOCTYPE
+        // together with an entity it does not declare (open finding C02:undeclared-entity-with-doctype)
+        let declared_only = !piece.contains("&Amp;");
+        let doctype = declared_only && rng.below(4) == 0;
+        let pre = if doctype { "<!DOCTYPE svg [<!ENTITY foo \"bar\"><!ENTITY nbsp \"&#160;\">]>\n" } else { "" };
+        let in_attr = rng.below(3) == 0;
+        let place = rng.below(7);
+        let carrier = if in_attr { format!("<rect width=\"2\" height=\"2\" data-n=\"{piece}\"/>") } else { format!("<desc>{piece}</desc>") };
+        let doc = match place {
+            0 => format!("{pre}<svg xmlns=\"http://www.w3.org/2000/svg\"><g>{carrier}</g></svg>"),
+            1 => format!("{pre}<svg xmlns=\"http://www.w3.org/2000/svg\"><text x=\"1\" y=\"2\">{piece}<tspan>t</tspan> {piece}</text></svg>"),
+            2 => format!("{pre}<svg><rect wh=\"4\"/><svg xmlns=\"http://www.w3.org/2000/svg\" viewBox=\"0 0 3 3\">{carrier}</svg><circle r=\"2\"/></svg>"),
+            3 => format!("{pre}<svg><rect wh=\"4\"/><text xy=\"1\">{piece}<tspan>a</tspan></text>{carrier}</svg>"),
+            4 => format!("{pre}<svg><rect wh=\"20 10\">{piece}</rect><text xy=\"1 2\">{piece}</text></svg>"),
+            5 => format!("{pre}<svg><rect wh=\"20 10\" text=\"{piece}\"/></svg>"),
+            _ => format!("{pre}<svg><g><rect wh=\"4\"/>{piece}</g><style>{piece}</style></svg>"),
+        };
+        st.case(&doc, true, || json!({"document": short(&doc)}));
+        st.tally(&format!("place={place}"));
+        st.tally(if any_bad { "malformed-piece" } else { "wellformed-pieces" });
+        if doctype { st.tally("doctype"); }
+        match transform(&doc, &default_cfg()) {
+            Err(p) => rep.violation(Violation { kind: "oracle", stream: st.name.clone(), signature: "C02:panic".into(), what: format!("panic: {p}"), replay: json!({"input": doc}), confirmed_on_impl: true }),
+            Ok(Err(e)) => {
+                st.tally(&format!("transform-error:{}", err_kind(&e)));
+                st.skipped += 1;
+                // C04-side sanity: nothing but well-formed references in real SVG must not be rejected
+                if !any_bad && place <= 2 && !(doctype && in_attr) {
+                    rep.violation(Violation { kind: "oracle", stream: st.name.clone(), signature: "C02:wellformed-reference-rejected".into(), what: format!("a document whose references are all well-formed was rejected: {e:?}"), replay: json!({"input": doc, "has_root": true}), confirmed_on_impl: true });
+                }
+            }
+            Ok(Ok(out)) => match ex.parse(out.as_bytes()) {
+                Ok(_) => { st.exact += 1; st.tally(if any_bad { "accepted-with-malformed-piece" } else { "accepted" }); }
+                Err(e) => rep.violation(Violation { kind: "oracle", stream: st.name.clone(), signature: "C02:reference".into(), what: format!("independent parser rejects the output: {e}"), replay: json!({"input": doc, "has_root": true, "output": short(&out)}), confirmed_on_impl: true }),
+            },
+        }
+    }
+    rep.streams.push(st);
+}
+
+
+/// the reader's reference check (events.rs invalid_reference, through the hook) against its Lean model
+/// (Svgdx.Xml.RefCheck), answer for answer including the offending text
+fn stream_refcheck(rep: &mut Report, drv: &mut Driver, rng: &mut Rng, n: usize) -> Result<(), String> {
+    let mut st = Stream::new(
+        "reader/reference-check",
+        "correspondence",
+        "strings assembled from reference fragments (&, #, x, X, ;, signs, decimal / hexadecimal digits, blanks, the predefined names, other names with non-ASCII name characters, boundary code points 0x8 0x9 0x1F 0x20 0xD7FF 0xD800 0xDFFF 0xE000 0xFFFD 0xFFFE 0x10000 0x10FFFF 0x110000, 2^32 and beyond) and plain text, with and without a DOCTYPE seen: invalid_reference of events.rs vs Svgdx.Xml.invalidReference, the same verdict and the same offending text; non-trivial = the string holds an ampersand",
+    );
+    const FR: &[&str] = &["&", "&", "&#", "&#x", ";", ";", "#", "x", "X", "+", "-", " ", "amp", "lt", "gt", "apos", "quot", "foo", "a.b-c", "_n", ":p", "é", "·", "1a", "0", "65", "0065", "41", "4G", "D7FF", "D800", "DFFF", "E000", "FFFD", "FFFE", "FFFF", "10000", "10FFFF", "110000", "8", "9", "31", "32", "55295", "55296", "57344", "65533", "65534", "1114111", "1114112", "4294967295", "4294967296", "4294967361", "100000041", "text", "<", ">", "\"", "a b", "\u{1F600}", "long-name-without-semicolon-0123456789"];
+    for _ in 0..n {
+        let k = 1 + rng.below(9);
+        let mut t = String::new();
+        for _ in 0..k { t.push_str(*rng.pick(FR)); }
+        let dt = rng.chance(1, 3);
+        let imp = hooks::invalid_reference(&t, dt);
+        st.case(&t, t.contains('&'), || json!({"string": t, "doctype": dt}));
+        st.tally(match &imp { None => "accepted", Some(_) => "rejected" });
+        let r = drv.call("ref_check", &[if dt { "1" } else { "0" }, &t])?;
+        let model: Option<String> = match r.first().map(|x| x.as_str()) { Some("none") => None, Some("some") => Some(r.get(1).cloned().unwrap_or_default()), _ => Some(format!("?{}", r.join("|"))) };
+        if imp == model { st.exact += 1; } else {
+            rep.violation(Violation { kind: "correspondence", stream: st.name.clone(), signature: "C02:refcheck-model".into(), what: format!("invalid_reference({t:?}, {dt}) = {imp:?} in the code, {model:?} in the model"), replay: json!({"string": t, "doctype": dt}), confirmed_on_impl: false });
+        }
+    }
+    rep.streams.push(st);
+    Ok(())
+}
+
 pub fn run_c02(rep: &mut Report, tier: &str, seed: u64) -> Result<(), String> {
     let mut rng = Rng::new(seed);
     let mut drv = Driver::start()?;
@@ -213,6 +301,7 @@ pub fn run_c02(rep: &mut Report, tier: &str, seed: u64) -> Result<(), String> {
     }
     rep.streams.push(st);
     stream_bytes(rep, &mut ex, &mut rng.fork(), nd / 4);
+    stream_references(rep, &mut ex, &mut rng.fork(), nd / 2);
     corpus(rep, &mut ex, "C02");
     Ok(())
 }
